@@ -82,7 +82,7 @@ def check(case, rec):
   states = [H.rand_state(mjm, case["seed"] + 19 * w, sigma=case["sigma"], vel=1.0) for w in range(n)]
   H.set_data(d, states)
   mjw.forward(m, d)
-  if (H.overflow(d) & int(OT.NEFC | OT.NJMAX_NNZ | OT.BROADPHASE | OT.NARROWPHASE)).any():
+  if (H.overflow_fwd(d) & int(OT.NEFC | OT.NJMAX_NNZ | OT.BROADPHASE | OT.NARROWPHASE)).any():
     rec.inconclusive += 1
     return
   kinds = set()
@@ -138,10 +138,23 @@ def check(case, rec):
     if int(d.ne.numpy()[w]) > mjd.ne:
       # equality between two bodies without degrees of freedom (e.g. mocap body welded to the world): MuJoCo emits no rows
       eqrows = np.nonzero(ew["type"] == 0)[0]
-      zero = [i for i in eqrows if np.max(np.abs(ew["J"][i])) < 1e-5]
-      if len(zero) == int(d.ne.numpy()[w]) - mjd.ne:
+      # whole equalities (all rows of one id) with an all-zero Jacobian: also two bodies of one weld group (a jointless child welded to its parent).
+      # Single zero rows of an equality that MuJoCo does emit (rotation rows of a weld on a body that can only slide) do not count
+      byid = {}
+      for i in eqrows:
+        byid.setdefault(int(ew["id"][i]), []).append(float(np.max(np.abs(ew["J"][i]))) < 1e-5)
+      zero = sum(len(v) for v in byid.values() if all(v))
+      if zero and zero == int(d.ne.numpy()[w]) - mjd.ne:
         rec.violation("equality between immobile bodies gets rows with an all-zero Jacobian; MuJoCo emits none", sig="rows:no-dof-equality", world=w)
         rec.cls("skipped:no-dof-equality")
+        continue
+    if int(d.nl.numpy()[w]) > mjd.nl:
+      # tendon limit on a tendon that no degree of freedom moves (sites on immobile bodies / on one rigid group): MuJoCo drops the all-zero row
+      keym = {(int(t), int(i)) for t, i in zip(em["type"], em["id"]) if int(t) in (3, 4)}
+      extra = [i for i in range(ew["nefc"]) if int(ew["type"][i]) in (3, 4) and (int(ew["type"][i]), int(ew["id"][i])) not in keym]
+      if extra and len(extra) == int(d.nl.numpy()[w]) - mjd.nl and all(float(np.max(np.abs(ew["J"][i]))) < 1e-5 for i in extra):
+        rec.violation("limit row with an all-zero Jacobian (nothing moves the tendon/joint); MuJoCo emits none", sig="rows:no-dof-limit", world=w)
+        rec.cls("skipped:no-dof-limit")
         continue
     check_equal(rec, "ne", int(d.ne.numpy()[w]), mjd.ne, sig="count:ne", **ctx)
     check_equal(rec, "nf", int(d.nf.numpy()[w]), mjd.nf, sig="count:nf", **ctx)
